@@ -270,6 +270,34 @@ func init() {
 				}
 			}
 		}
+		// concrete arguments of plain basic types: the real fmt.Sprintf (this is what lets valueFile/segmentFile run
+		// for real on concrete values)
+		if f, ok := a[0].(string); ok {
+			if args, ok := a[1].([]value); ok {
+				goArgs := make([]interface{}, 0, len(args))
+				allPlain := true
+				for _, x := range args {
+					it, isIface := x.(iface)
+					if !isIface || it.t == nil {
+						allPlain = false
+						break
+					}
+					if _, basic := it.t.(*types.Basic); !basic {
+						allPlain = false
+						break
+					}
+					switch it.v.(type) {
+					case bool, int, int8, int16, int32, int64, uint, uint8, uint16, uint32, uint64, uintptr, string:
+						goArgs = append(goArgs, it.v)
+					default:
+						allPlain = false
+					}
+				}
+				if allPlain {
+					return fmt.Sprintf(f, goArgs...)
+				}
+			}
+		}
 		return "fmt.Sprintf(" + fmtArg(a[0]) + ")"
 	}
 	externals["fmt.Sprint"] = func(fr *frame, a []value) value { return "fmt.Sprint" }
